@@ -46,6 +46,17 @@ def _oracle(chk, r, a):
                 continue
             chk.violation('C04:discrete-cost!=export-cost:' + name,
                           'discrete %s cost %.6g, same metric on the exported network %.6g' % (name, c['pit'], c['export']), cid)
+    for name, c in costs.items():
+        if name == 'numel_export' or 'error' in c or 'pit_single' not in c:
+            continue
+        if isinstance(c['pit_single'], str):
+            chk.violation('C04:cost-raises:single-spec:' + name, 'get_cost() raises after cost_specification = %s: %s'
+                          % (name, c['pit_single']), cid)
+        elif not _close(c['pit_single'], c['pit']):
+            chk.violation('C04:single-spec-assigned-after-pruning:' + name,
+                          'discrete %s cost is %.6g with the specification given to the constructor in a dictionary, but %.6g '
+                          'once the same specification is assigned to the pruned model (exported network: %s)'
+                          % (name, c['pit'], c['pit_single'], c['export']), cid)
     if not r['excl'] or r['spec']['full_cost']:
         if costs['params'].get('pit') is not None and 'error' not in costs['params'] and costs['params']['pit'] != costs['numel_export']:
             chk.violation('C04:params!=numel',
@@ -71,7 +82,7 @@ def run(chk):
         if r.get('harness_error'):
             raise RuntimeError('harness error on %s: %s %s' % (r['spec'], r['harness_error'], r.get('tb')))
         if r.get('construct_error'):
-            chk.violation('C04:constructor-raises', 'PIT() raises: ' + r['construct_error'], dict(pitcheck.case_id(r), kind='net'))
+            chk.violation('C04:' + pitcheck.raise_kind(r), 'PIT() raises: ' + r['construct_error'], dict(pitcheck.case_id(r), kind='net'))
             continue
         # initial cost = cost of the original model (continuous and discrete)
         for name, c in r.get('init_cost', {}).items():
